@@ -198,6 +198,8 @@ fn wide(thorough: bool) -> Vec<D> {
         D::T(0.1), D::T(0.3), D::T(1.9999), D::T(1e3), D::T(1e6),
         // Poisson: tiny rates, the switch at 10 from below, PTRS far beyond 1e5 (k ln(lambda) - ln k! is a difference of huge terms)
         D::Poisson(1e-9), D::Poisson(1e-300), D::Poisson(9.999999999), D::Poisson(1e7), D::Poisson(1e9), D::Poisson(1e12), D::Poisson(1e15),
+        // (1e18 at every tier: the recorded finding poisson:dkw:log-terms-above-2^49 is systematic there - sup|Fn - F| about 0.018 - and so reported by every run)
+        D::Poisson(1e18),
         // binomial: huge n in the inversion regime ((1-p)^n with 1-p rounded), at the switch n p = 30, BTPE with huge n, both reflected
         D::Binomial(1_000_000_000_000, 1e-11), D::Binomial(1_000_000_000_000_000, 1e-14), D::Binomial(1_000_000_000_000_000, 3e-14),
         D::Binomial(1_000_000_000_000_000_000, 1e-17), D::Binomial(1_000_000_000_000_000, 1.0 - 1e-14), D::Binomial(1_000_000_000_000_000, 0.5),
@@ -209,7 +211,7 @@ fn wide(thorough: bool) -> Vec<D> {
         D::Bernoulli(1e-300), D::Bernoulli(1.0 - 1e-3), D::Bernoulli(0.9999999999999999), D::Bernoulli(5e-324),
     ];
     if thorough {
-        v.extend([D::Gamma(1e12, 1e-3), D::ChiSquared(2_000_000_000), D::T(1e9), D::Poisson(1e10), D::Poisson(3e13), D::Poisson(1e18), D::Binomial(1_000_000_000_000_000_000, 0.3),
+        v.extend([D::Gamma(1e12, 1e-3), D::ChiSquared(2_000_000_000), D::T(1e9), D::Poisson(1e10), D::Poisson(3e13), D::Binomial(1_000_000_000_000_000_000, 0.3),
                   D::Binomial(100_000_000_000_000, 1e-13), D::Binomial(10_000_000_000, 3e-9), D::Beta(1e6, 1e6), D::Pareto(1e6, 1.0), D::Normal(-1e9, 1.0)]);   // not Normal(-1e15, 1): the binary64 grid there is 0.125 wide, one cell carries 5% of the mass (see Beta above)
     }
     v
